@@ -314,6 +314,18 @@ def elemDepthL : List CST → Nat
   | c :: cs => max c.elemDepth (elemDepthL cs)
 end
 
+mutual
+/-- nesting depth of nodes of nonterminal `nt` in a tree -/
+def CST.ntDepth (nt : Nat) : CST → Nat
+  | .leaf _ => 0
+  | .node n c => if n == nt then c.ntDepth nt + 1 else c.ntDepth nt
+  | .seq ks => ntDepthL nt ks
+  | .many ks => ntDepthL nt ks
+def ntDepthL (nt : Nat) : List CST → Nat
+  | [] => 0
+  | c :: cs => max (c.ntDepth nt) (ntDepthL nt cs)
+end
+
 def absProlog : List (Nat × CST) → Except XErr (List TopItem)
   | [] => .ok []
   | (n, b) :: rest =>
